@@ -144,7 +144,7 @@ bool ConsoleHandler::ExecuteScriptHelper(boost::beast::http::request<boost::beas
 		resultInfo = new Dictionary({
 			{ "code", 200 },
 			{ "status", "Executed successfully." },
-			{ "result", Serialize(exprResult, 0) }
+			{ "result", Serialize(exprResult, 0, sandboxed) }
 		});
 	} catch (const ScriptError& ex) {
 		DebugInfo di = ex.GetDebugInfo();
